@@ -341,11 +341,53 @@ fn run_flat_case(seed: u64, index: u64, rep: &mut Report, model: &mut crate::mod
     if n_undo > 0 { rep.nontrivial_case(&format!("c12flat:{}", index)); }
 }
 
+/// Fixed inputs found by the Coq transcription of ItemPtr::redo for nested scopes (Crdt/Redo.v) and replayed against the code.
+fn fixed_nested_cases(rep: &mut Report) {
+    use yrs::{Array, ArrayPrelim, Map, MapPrelim, Transact};
+    let mk = || { let d = mk_doc(1, DocCfg::default()); let m = d.get_or_insert_map("m");
+        let mut mgr: yrs::undo::UndoManager<()> = yrs::undo::UndoManager::with_options(yrs::undo::Options { capture_timeout_millis: 1_000_000_000, ..yrs::undo::Options::default() });
+        mgr.expand_scope(&d, &m); mgr.include_origin("me"); (d, m, mgr) };
+    let show = |d: &yrs::Doc| public_dump(d);
+    rep.count("c12_fixed_nested_inputs");
+    // (B) an array below a map key; an element is deleted and re-created by undo, its copy is squashed behind its left neighbour; the
+    // key is overwritten (which deletes the array) and that is undone: every element has to be back
+    {
+        let (d, m, mut mgr) = mk();
+        let arr = { let mut t = d.transact_mut_with("me"); let a = m.insert(&mut t, "k1", ArrayPrelim::default()); a.insert(&mut t, 0, 38); a }; mgr.reset();
+        { let mut t = d.transact_mut_with("me"); arr.insert(&mut t, 1, MapPrelim::default()); arr.insert(&mut t, 2, 50); } mgr.reset();
+        { let mut t = d.transact_mut_with("me"); arr.insert(&mut t, 2, 52); } mgr.reset();
+        { let mut t = d.transact_mut_with("me"); arr.remove(&mut t, 3); } mgr.reset();
+        mgr.undo_blocking();
+        let before = show(&d);
+        { let mut t = d.transact_mut_with("me"); m.insert(&mut t, "k1", 64); } mgr.reset();
+        mgr.undo_blocking();
+        let after = show(&d);
+        if after != before { rep.fail(json!({"property": "C12", "class": "undo-does-not-restore-the-content-before-the-step", "input": "fixed: an element re-created by undo and squashed behind its neighbour, then the container deleted and that undone", "expected": before, "got": after, "case": {"stream": 124, "index": 0}})); }
+    }
+    // (A) a map below a map key is deleted and re-created by undo; another origin then writes a key of the re-created map; a further
+    // undo of the tracked origin (which would restore an older value of that key) must not erase what the other origin wrote
+    {
+        let (d, m, mut mgr) = mk();
+        let c = { let mut t = d.transact_mut_with("me"); m.insert(&mut t, "k0", MapPrelim::default()) }; mgr.reset();
+        { let mut t = d.transact_mut_with("me"); c.insert(&mut t, "k1", 11); } mgr.reset();
+        { let mut t = d.transact_mut_with("me"); c.remove(&mut t, "k1"); } mgr.reset();
+        { let mut t = d.transact_mut_with("me"); m.remove(&mut t, "k0"); } mgr.reset();
+        mgr.undo_blocking();
+        { let mut t = d.transact_mut_with("someone else"); if let Some(yrs::Out::YMap(c2)) = m.get(&t, "k0") { c2.insert(&mut t, "k1", 99); } }
+        let before = show(&d);
+        mgr.undo_blocking();
+        let after = show(&d);
+        if std::env::var("YV_DEBUG").is_ok() { eprintln!("fixed A: before {} after {}", before, after); }
+        if before.contains("i63") && !after.contains("i63") { rep.fail(json!({"property": "C12", "class": "undo-erases-an-entry-written-by-another-origin", "input": "fixed: map re-created by undo, foreign write into it, tracked undo of an older removal of the same key", "before": before, "after": after, "case": {"stream": 124, "index": 1}})); }
+    }
+}
+
 pub fn cases(tier: &str) -> u64 { if tier == "thorough" { 40000 } else { 15000 } }
 pub fn run_range(_tier: &str, seed: u64, lo: u64, hi: u64) -> Report {
     let trace = std::env::var("YV_TRACE").is_ok();
     let mut rep = Report::default();
     let mut model = crate::model::Model::spawn();
+    if lo == 0 { if let Err(e) = catch(std::panic::AssertUnwindSafe(|| fixed_nested_cases(&mut rep))) { rep.fail(json!({"property": "C12", "class": "panic", "error": e, "case": {"stream": 124, "index": 0}})); } }
     for ci in lo..hi {
         if let Ok(o) = std::env::var("YV_ONLY") { if o.parse::<u64>().ok() != Some(ci) { continue; } }
         if std::env::var("YV_MODE").map(|m| m == "flat").unwrap_or(true) {
